@@ -27,4 +27,13 @@ PROPS = {
                                       "the theorem; measured TotalAlloc is compared with 9*len+1024"],
         "assumptions": ["same mirror as C01", "Go allocator rounding and unrelated goroutines stay below the slack"],
     },
+    "C20": {
+        "rule": "capacities 1..64 (1..4 oversampled), random Log/Filter sequences with 1..3 owners + nil owner, types 0..3, "
+                "lengths below/at/above/far above capacity; drained filters compared exactly with the loop mirror and the "
+                "lastN specification; undrained filters and 2..6 concurrent producers validated by the model as acceptor "
+                "(window of some admissible prefix; per-producer suffix order). non-trivial = distinct sequences",
+        "modelled": ["modelled, not verified: Go channels as FIFO lists with capacity 16; select fairness; Logger.Resize is out of scope"],
+        "assumptions": ["G9.Logger mirrors log.go (checked by this check's differential run)",
+                        "the logger goroutine is scheduled (no real-time bound is proved)"],
+    },
 }
